@@ -36,6 +36,10 @@ var (
 	_ ast.FuncDeclVisitor    = (*ConstFuncParamAnnotator)(nil)
 	_ ast.FuncCallVisitor    = (*ConstFuncParamAnnotator)(nil)
 	_ ast.AssignStmtVisitor  = (*ConstFuncParamAnnotator)(nil)
+	_ ast.UnaryExprVisitor   = (*ConstFuncParamAnnotator)(nil)
+	_ ast.BinaryExprVisitor  = (*ConstFuncParamAnnotator)(nil)
+	_ ast.TernaryExprVisitor = (*ConstFuncParamAnnotator)(nil)
+	_ ast.CastExprVisitor    = (*ConstFuncParamAnnotator)(nil)
 	_ ast.ConditionalVisitor = (*ConstFuncParamAnnotator)(nil)
 )
 
@@ -100,25 +104,53 @@ func (a *ConstFuncParamAnnotator) assumeNotConst(decl *ast.FuncDecl) {
 }
 
 func (a *ConstFuncParamAnnotator) VisitFuncCall(call *ast.FuncCall) ast.VisitResult {
+	a.visitCall(call.Func, call.Args)
+	return ast.VisitRecurse
+}
+
+// an overloaded operator is a call of the overloading function
+func (a *ConstFuncParamAnnotator) visitOverload(overload *ast.OperatorOverload) ast.VisitResult {
+	if overload != nil {
+		a.visitCall(overload.Decl, overload.Args)
+	}
+	return ast.VisitRecurse
+}
+
+func (a *ConstFuncParamAnnotator) VisitUnaryExpr(expr *ast.UnaryExpr) ast.VisitResult {
+	return a.visitOverload(expr.OverloadedBy)
+}
+
+func (a *ConstFuncParamAnnotator) VisitBinaryExpr(expr *ast.BinaryExpr) ast.VisitResult {
+	return a.visitOverload(expr.OverloadedBy)
+}
+
+func (a *ConstFuncParamAnnotator) VisitTernaryExpr(expr *ast.TernaryExpr) ast.VisitResult {
+	return a.visitOverload(expr.OverloadedBy)
+}
+
+func (a *ConstFuncParamAnnotator) VisitCastExpr(expr *ast.CastExpr) ast.VisitResult {
+	return a.visitOverload(expr.OverloadedBy)
+}
+
+// marks the parameters that are passed to a parameter of decl which is not known to be const
+func (a *ConstFuncParamAnnotator) visitCall(decl *ast.FuncDecl, args map[string]ast.Expression) {
 	var isConst map[string]bool
-	if attachement, ok := a.CurrentModule.Ast.GetMetadataByKind(call.Func, ConstFuncParamMetaKind); ok {
+	if attachement, ok := a.CurrentModule.Ast.GetMetadataByKind(decl, ConstFuncParamMetaKind); ok {
 		isConst = attachement.(ConstFuncParamMeta).IsConst
 	}
 
 	currentParams := maps.Keys(a.currentParams)
-	for _, param := range call.Func.Parameters {
+	for _, param := range decl.Parameters {
 		if isConst[param.Name.Literal] {
 			continue
 		}
 
-		for _, referencedVar := range doesReferenceVarMutable(call.Args[param.Name.Literal], currentParams) {
+		for _, referencedVar := range doesReferenceVarMutable(args[param.Name.Literal], currentParams) {
 			a.currentParams[referencedVar] = false
 		}
 	}
 
 	a.overwriteAttachement()
-
-	return ast.VisitRecurse
 }
 
 func (a *ConstFuncParamAnnotator) VisitAssignStmt(stmt *ast.AssignStmt) ast.VisitResult {
